@@ -148,7 +148,7 @@ func init() {
 	// Predicate (C05 case = [kind, probe, args]): pessimistic operator on a
 	// two-component base whose minor is not zero.
 	register("hex.pessimistic_two_part_nonzero_minor", func(c Case) bool {
-		if c.Eco != "hex" || len(c.Inputs) != 3 || c.Inputs[0] != "pess" {
+		if c.Eco != "hex" || len(c.Inputs) < 3 || c.Inputs[0] != "pess" {
 			return false
 		}
 		var args []string
@@ -163,7 +163,7 @@ func init() {
 	// gem/range_test.go "pessimistic prerelease patch bump". Predicate: the
 	// pessimistic construct has a pre-release argument.
 	register("gem.pessimistic_prerelease_base", func(c Case) bool {
-		if c.Eco != "gem" || len(c.Inputs) != 3 || c.Inputs[0] != "pess" {
+		if c.Eco != "gem" || len(c.Inputs) < 3 || c.Inputs[0] != "pess" {
 			return false
 		}
 		var args []string
